@@ -20,6 +20,7 @@ import (
 )
 
 func main() {
+	attachGates()
 	var (
 		propID  = flag.String("property", "", "property id (C01..C20)")
 		tier    = flag.String("tier", "quick", "quick|thorough")
